@@ -1735,6 +1735,8 @@ def main():
     rs2coq_misc.main(os.path.dirname(dst))
     import rs2coq_rm             # part 11: DefaultRoleManager + bounded BFS -> Gen/RoleManagerGen.v
     rs2coq_rm.main(os.path.dirname(dst))
+    import rs2coq_rmcache        # part 23: DefaultRoleManager with feature "cached" ON (the has_link cache) -> Gen/RmCacheGen.v
+    rs2coq_rmcache.main(os.path.dirname(dst))
 
 
 if __name__ == "__main__":
